@@ -10,7 +10,7 @@ from concurrent.futures import ThreadPoolExecutor
 from .common import *   # noqa: F401,F403
 from . import instr_gen as ig
 
-LEAF = ['Leaf_chart', 'Leaf_fromfile', 'Leaf_dispatch', 'Leaf_tracks', 'Leaf_build']      # translated functions this property's model relies on (Tie/<name>.v)
+LEAF = ['Leaf_chart', 'Leaf_fromfile', 'Leaf_meta', 'Leaf_dispatch', 'Leaf_tracks', 'Leaf_build']      # translated functions this property's model relies on (Tie/<name>.v)
 RULE = ("[cold start] fresh interpreters whose very first parses run on 8 threads at once (barrier, 1 us switch interval) on a chart with 300 (thorough: 1000) star-power phrases, "
         "every distinct result and a later sequential parse in the same process judged against the fresh sequential parse; " + "a corpus of 30-40 chart texts (thorough: 250): valid charts sharing and not sharing resolutions / sustain tuples (so the memo tables hit across charts), a chart with > 128 distinct "
         "sustain tuples (forces lru eviction), charts with many plain text events vs. charts with sections and lyrics, charts stating many optional [Song] fields vs. charts stating none, and "
